@@ -44,12 +44,12 @@ def obsOf (s : St) : String :=
   let ended := (s.seen.foldr (fun x acc => insertSorted (x, "") acc) []).map (·.1)
   s!"L={l};X={if s.busy.isSome then 1 else 0};F={f};S={sd};D={s.droppedIds.length};Q={s.queue.length};E={dotList ended};H={if s.sd = .shut then 1 else 0}"
 
-def runSched (s : St) (ops : List Op) : List String :=
+def runSched (v : Nat) (s : St) (ops : List Op) : List String :=
   match ops with
   | [] => []
   | op :: r =>
-    let s' := settle 4000 (applyOp s op)
-    obsOf s' :: runSched s' r
+    let s' := settle v 4000 (applyOp s op)
+    obsOf s' :: runSched v s' r
 
 /-- fields of an observation -/
 def field (obs : String) (k : String) : Option String :=
@@ -130,9 +130,12 @@ def stepLine (_ : Unit) (toks : List String) : Unit × Option Verdict :=
     match cap.toNat?, maxB.toNat?, opToks.mapM parseOp with
     | some cap, some maxB, some ops =>
       let blocking := bl == "1"
-      let model := runSched (init cap maxB blocking) ops
+      let model := runSched 0 (init cap maxB blocking) ops
+      -- where the Go code chooses at random among ready select cases, any of the scheduler variants is accepted
+      let agreeV := [0, 1, 2, 3].find? fun v => runSched v (init cap maxB blocking) ops == obs
+      let vv := agreeV.getD 0
       let (bad, f22) := schedOracle maxB blocking ops obs
-      let final := settle 4000 (ops.foldl (fun s op => settle 4000 (applyOp s op)) (init cap maxB blocking))
+      let final := settle vv 4000 (ops.foldl (fun s op => settle vv 4000 (applyOp s op)) (init cap maxB blocking))
       -- F22 is accepted only when the model itself took one of ForceFlush's early exits (`F22_applies`)
       let f22model := final.ffs.any (fun f => f.ph == .retEarly)
       let spec := if !bad.isEmpty then "FAIL" else if f22 && f22model then "KNOWN:F22" else if f22 then "FAIL" else "ok"
@@ -142,8 +145,9 @@ def stepLine (_ : Unit) (toks : List String) : Unit × Option Verdict :=
         (if final.ffs.any (·.ph == .retEarly) then ["ff-early"] else []) ++
         (if final.ffs.any (·.ph == .retErr) then ["ff-err"] else []) ++
         (if final.sdRetOk then ["sd-ok"] else []) ++
-        (if final.w == .exited then ["exited"] else [])
-      ((), some { agree := model == obs, spec := spec ++ (if bad.isEmpty then "" else ":" ++ ",".intercalate bad),
+        (if final.w == .exited then ["exited"] else []) ++
+        (if vv != 0 then [s!"variant{vv}"] else [])
+      ((), some { agree := agreeV.isSome, spec := spec ++ (if bad.isEmpty then "" else ":" ++ ",".intercalate bad),
                   nontrivial := !final.exported.isEmpty,
                   branches := if br.isEmpty then "-" else ",".intercalate br,
                   model := " ".intercalate model })
